@@ -90,14 +90,15 @@ ENTRIES = []
 NAMES = set()
 
 
-def E(fam, name, args, ret, spec, cxx, mag=ORD, fl='any', nz=(), approx=False, this_unit=False, method=False, pos=False):
+def E(fam, name, args, ret, spec, cxx, mag=ORD, fl='any', nz=(), approx=False, this_unit=False, method=False, pos=False, ref=None):
     """args: list of (shape|None, elt); ret: (shape|None, elt) or 'bool'; spec: Gallina term over a b c d;
+    ref: None, or k when the overload returns (a reference to) its k-th operand ITSELF - the result is that operand's location, not a copy;
     cxx: C++ expression over a b c d; mag: magnitude bound of signed integer operands; fl: 'any' | 'fin' (finite, |x| < 2^20);
     nz: indexes of integer arguments that must have no zero component (divisors)"""
     assert name not in NAMES, name
     NAMES.add(name)
     ENTRIES.append(dict(fam=fam, name=name, args=args, ret=ret, spec=spec, cxx=cxx, mag=mag, fl=fl, nz=tuple(nz),
-                        approx=approx, this_unit=this_unit, pos=pos))
+                        approx=approx, this_unit=this_unit, pos=pos, ref=ref))
 
 
 def argc(args, i):        # components of argument i (scalar: the value itself repeated on demand)
@@ -179,11 +180,11 @@ for (t, u, ops, vv, vs) in (('f', 'f', BIN, AVV_F, ALLSH), ('i', 'i', BIN + REM,
         f2i = (t == 'i' and u == 'd')
         for (sa, sb) in vv:
             E('assign_vv', 'op_%s_assign__v%s%s_v%s%s' % (nm, sa, t, sb, u), [(sa, t), (sb, u)], (sa, t),
-              mk(sa, [sop(bo, t, u, x, y, back=t) for x, y in zip(comps(sa, 'a'), comps(sb, 'b'))]), 'a %s= b' % cx,
+              mk(sa, [sop(bo, t, u, x, y, back=t) for x, y in zip(comps(sa, 'a'), comps(sb, 'b'))]), 'a %s= b' % cx, ref=0,
               mag=min(mag, 2 ** 20) if f2i else mag, fl='fin1' if f2i else 'any', nz=(1,) if (nm in ('div', 'rem') and (not ISFL[u] or f2i)) else ())
         for sa in vs:
             E('assign_vs', 'op_%s_assign__v%s%s_%s' % (nm, sa, t, u), [(sa, t), (None, u)], (sa, t),
-              mk(sa, [sop(bo, t, u, x, 'b', back=t) for x in comps(sa, 'a')]), 'a %s= b' % cx,
+              mk(sa, [sop(bo, t, u, x, 'b', back=t) for x in comps(sa, 'a')]), 'a %s= b' % cx, ref=0,
               mag=min(mag, 2 ** 20) if f2i else mag, fl='fin1' if f2i else 'any', nz=(1,) if (nm in ('div', 'rem') and (not ISFL[u] or f2i)) else ())
 
 # ------------------------------------------------------------------------------------ madd, comparisons, anyLessThan
